@@ -4,23 +4,31 @@
 From Coq Require Import ZArith Reals Lra Lia List Bool String.
 From Coquelicot Require Import Coquelicot.
 From FF Require Import Base.Ops Inst.RInst Base.RAlg Model.Numeric Model.Gradient Model.GradConsts
-     Model.Tie.C11 Proofs.Foi Proofs.MatAlg Proofs.Gradient Proofs.GradientScaling
+     Model.Tie.C11 Proofs.Foi Proofs.MatAlg Proofs.Gradient Proofs.GradientScaling Proofs.GradientSeries
      Model.Consts Corr.Agree Corr.Obs Corr.ObsC11.   (* the last four: everything the case files of the correspondence check import *)
 Import ListNotations.
 Local Open Scope R_scope.
 
-(* --- gradient._derivative_integral: every branch is the parameter integral
-       int_0^dt e^{i x t} (int_0^t e^{i b s} ds) dt, x = w + Omega_mn, b = Omega_pq; the masked
-       branches are its values at the degenerate parameters (limits consistent) --- *)
-Theorem C11_deriv_integral_cases : forall thr_dE thr_x thr_y w ev dt p q m n,
-  0 < thr_dE -> 0 < thr_x -> 0 < thr_y ->
+(* --- gradient._derivative_integral (after fix 0c5cb2a): every entry is the parameter integral
+       int_0^dt e^{i x t} (int_0^t e^{i b s} ds) dt, x = w + Omega_mn, b = Omega_pq --- *)
+(* (e^{i x dt} - 1)/x in its half-angle form, with the exact-zero test, is i * int_0^dt e^{ixt} dt for EVERY x, dt *)
+Theorem C11_di_tmp2_val : forall x dt, di_tmp2 RO x dt = (- Is x dt, Ic x dt).
+Proof. exact di_tmp2_val. Qed.
+(* the case Omega_pq != 0 is exact for every x: no small-denominator window is left *)
+Theorem C11_di_nz_exact : forall x b dt, b <> 0 ->
+  is_RInt (dint_re x b) 0 dt (fst (di_nz RO x b dt)) /\
+  is_RInt (dint_im x b) 0 dt (snd (di_nz RO x b dt)).
+Proof. exact di_nz_exact. Qed.
+(* all cases: Omega_pq is treated as 0 when |Omega_pq dt| < thr_dE (exact if it is 0); in that case the Taylor
+   polynomial is used for |x dt| < thr_s (exact at x = 0; error bound: C11_di_series_bound below) *)
+Theorem C11_deriv_integral_cases : forall thr_dE thr_s w ev dt p q m n,
+  0 < thr_dE -> 0 < thr_s ->
   (Rabs (di_b ev p q * dt) < thr_dE -> di_b ev p q = 0) ->
-  (Rabs (di_x w ev m n * dt) < thr_x -> di_x w ev m n = 0) ->
-  (Rabs ((di_x w ev m n + di_b ev p q) * dt) < thr_y -> di_x w ev m n + di_b ev p q = 0) ->
+  (Rabs (di_b ev p q * dt) < thr_dE -> Rabs (di_x w ev m n * dt) < thr_s -> di_x w ev m n = 0) ->
   is_RInt (dint_re (di_x w ev m n) (di_b ev p q)) 0 dt
-          (fst (deriv_integral_entry RO (thr_dE, thr_x, thr_y) w ev dt p q m n)) /\
+          (fst (deriv_integral_entry RO (thr_dE, thr_s) w ev dt p q m n)) /\
   is_RInt (dint_im (di_x w ev m n) (di_b ev p q)) 0 dt
-          (snd (deriv_integral_entry RO (thr_dE, thr_x, thr_y) w ev dt p q m n)).
+          (snd (deriv_integral_entry RO (thr_dE, thr_s) w ev dt p q m n)).
 Proof. exact deriv_integral_cases. Qed.
 Print Assumptions C11_deriv_integral_cases.
 
@@ -29,25 +37,28 @@ Theorem C11_inner_integral : forall b t,
   is_RInt (fun s => cos (b * s)) 0 t (Ic b t) /\ is_RInt (fun s => sin (b * s)) 0 t (Is b t).
 Proof. exact inner_integral. Qed.
 
-(* hypotheses satisfiable: a non-degenerate two-level segment at a generic frequency *)
+(* hypotheses satisfiable: a non-degenerate two-level segment at a generic frequency, dt = 1, extracted thresholds *)
 Example C11_deriv_integral_cases_sat :
   let thr := Rdya (fst di_thr_dE) (snd di_thr_dE) in
-  0 < thr /\
+  let thr_s := Rdya (fst di_thr_series) (snd di_thr_series) in
+  0 < thr /\ 0 < thr_s /\
   (Rabs (di_b [0; 1] 0 1 * 1) < thr -> di_b [0; 1] 0 1 = 0) /\
-  (Rabs (di_x 3 [0; 1] 0 1 * 1) < thr -> di_x 3 [0; 1] 0 1 = 0) /\
-  (Rabs ((di_x 3 [0; 1] 0 1 + di_b [0; 1] 0 1) * 1) < thr -> di_x 3 [0; 1] 0 1 + di_b [0; 1] 0 1 = 0).
+  (Rabs (di_b [0; 1] 0 1 * 1) < thr -> Rabs (di_x 3 [0; 1] 0 1 * 1) < thr_s -> di_x 3 [0; 1] 0 1 = 0).
 Proof.
   assert (P : 0 < Rdya (fst di_thr_dE) (snd di_thr_dE) < 1).
   { apply (Rdya_small 944473296573929 73); reflexivity. }
-  cbv zeta. split. apply P.
+  assert (P2 : 0 < Rdya (fst di_thr_series) (snd di_thr_series) < 1).
+  { apply (Rdya_small 5764607523034235 59); reflexivity. }
+  cbv zeta. split. apply P. split. apply P2.
   set (thr := Rdya (fst di_thr_dE) (snd di_thr_dE)) in *.
   unfold di_b, di_x, vg, vget; simpl.
-  repeat split; intros H; exfalso; apply Rabs_def2 in H; lra.
+  split; intros H; exfalso; apply Rabs_def2 in H; lra.
 Qed.
 
-(* every division of _derivative_integral is guarded by a mask *)
-Theorem C11_di_div_safe : forall thr_dE thr_x thr_y w ev dt p q m n, 0 < thr_dE -> 0 < thr_x -> 0 < thr_y ->
-  forall bx, In bx (di_denoms RO (thr_dE, thr_x, thr_y) w ev dt p q m n) -> fst bx = false -> snd bx <> 0.
+(* every division of _derivative_integral is guarded (threshold mask false, resp. exact-zero test true) *)
+Theorem C11_di_div_safe : forall thr_dE thr_s w ev dt p q m n, 0 < thr_dE -> 0 < thr_s ->
+  (forall bx, In bx (di_denoms_masked RO (thr_dE, thr_s) w ev dt p q m n) -> fst bx = false -> snd bx <> 0) /\
+  (forall bx, In bx (di_denoms_nz RO w ev dt p q m n) -> fst bx = true -> snd bx <> 0).
 Proof. exact di_div_safe. Qed.
 
 (* --- calculate_filter_function_derivative: dF_aa = 2 Re sum_k conj(B_ak) dB_ak --- *)
@@ -86,11 +97,11 @@ Theorem C11_d2_shortcut_eq_general_traceless : forall (DI : nat -> nat -> nat ->
   Mshort_entry_prefix DI Cb NT r c = Mgen_entry RO 2 DI Cb NT r c.
 Proof. exact d2_shortcut_eq_general_traceless. Qed.
 (* ... and was wrong otherwise (pre-fix finding c11-d2-shortcut-nontraceless) *)
-Theorem C11_d2_shortcut_prefix_refuted : forall thr_dE thr_x thr_y, 0 < thr_dE -> 0 < thr_x -> 0 < thr_y ->
+Theorem C11_d2_shortcut_prefix_refuted : forall thr_dE thr_s, 0 < thr_dE -> 0 < thr_s ->
   exists (w dt : R) (ev : list R) (Cb NT : Mat) (r c : nat), (r < 2)%nat /\ (c < 2)%nat /\
     vg RO ev 0 <> vg RO ev 1 /\
-    M_entry_prefix 2 (deriv_integral_entry RO (thr_dE, thr_x, thr_y) w ev dt) Cb NT r c
-    <> Mgen_entry RO 2 (deriv_integral_entry RO (thr_dE, thr_x, thr_y) w ev dt) Cb NT r c.
+    M_entry_prefix 2 (deriv_integral_entry RO (thr_dE, thr_s) w ev dt) Cb NT r c
+    <> Mgen_entry RO 2 (deriv_integral_entry RO (thr_dE, thr_s) w ev dt) Cb NT r c.
 Proof. exact d2_shortcut_prefix_refuted. Qed.
 Print Assumptions C11_d2_shortcut_prefix_refuted.
 
@@ -206,10 +217,10 @@ Theorem C11_ffd_minus_ident_eq : forall (d : nat) FD (id idd : Cx),
 Proof. exact ffd_minus_ident_eq. Qed.
 
 (* --- change of the time unit: exact homogeneity of degree 2 with the dimensionless masks (fix 602caf6) --- *)
-Theorem C11_time_scaling : forall lam, 0 < lam -> forall thr_dE thr_x thr_y w ev dt p q m n,
-  0 < thr_dE -> 0 < thr_x -> 0 < thr_y ->
-  deriv_integral_entry RO (thr_dE, thr_x, thr_y) (w / lam) (map (fun e => e / lam) ev) (dt * lam) p q m n
-  = cscal RO (lam * lam) (deriv_integral_entry RO (thr_dE, thr_x, thr_y) w ev dt p q m n).
+Theorem C11_time_scaling : forall lam, 0 < lam -> forall thr_dE thr_s w ev dt p q m n,
+  0 < thr_dE -> 0 < thr_s ->
+  deriv_integral_entry RO (thr_dE, thr_s) (w / lam) (map (fun e => e / lam) ev) (dt * lam) p q m n
+  = cscal RO (lam * lam) (deriv_integral_entry RO (thr_dE, thr_s) w ev dt p q m n).
 Proof. exact time_scaling. Qed.
 Print Assumptions C11_time_scaling.
 (* pre-fix (absolute masks, finding c11-absolute-threshold): not homogeneous (extracted threshold, lam = 2^27) *)
@@ -260,44 +271,59 @@ Proof. exact (filter_function_derivative_entry RO). Qed.
 (* --- the per-segment derivative (general expression, every d) is the Duhamel commutator integral --- *)
 (* M[r,c] = int_0^dt e^{i w t} [Phi_h(t), N_a(t)]_rc dt  with Phi_h(t) = int_0^t e^{iHs} C_h e^{-iHs} ds and
    N_a(t) = e^{iHt} B_a e^{-iHt} in the eigenbasis (no Taylor-branch approximation: masked => exactly zero) *)
-Theorem C11_Mgen_commutator_integral : forall d w ev (Cb NT : Mat) thr_dE thr_x thr_y dt,
-  0 < thr_dE /\ 0 < thr_x /\ 0 < thr_y ->
+Theorem C11_Mgen_commutator_integral : forall d w ev (Cb NT : Mat) thr_dE thr_s dt,
+  0 < thr_dE /\ 0 < thr_s ->
   (forall p q m n, (p < d)%nat -> (q < d)%nat -> (m < d)%nat -> (n < d)%nat ->
     (Rabs (di_b ev p q * dt) < thr_dE -> di_b ev p q = 0) /\
-    (Rabs (di_x w ev m n * dt) < thr_x -> di_x w ev m n = 0) /\
-    (Rabs ((di_x w ev m n + di_b ev p q) * dt) < thr_y -> di_x w ev m n + di_b ev p q = 0)) ->
+    (Rabs (di_b ev p q * dt) < thr_dE -> Rabs (di_x w ev m n * dt) < thr_s -> di_x w ev m n = 0)) ->
   forall r c, (r < d)%nat -> (c < d)%nat ->
   cRInt (comm_integrand d w ev Cb NT r c) 0 dt
-        (M_entry RO d (deriv_integral_entry RO (thr_dE, thr_x, thr_y) w ev dt) Cb NT r c).
+        (M_entry RO d (deriv_integral_entry RO (thr_dE, thr_s) w ev dt) Cb NT r c).
 Proof. exact Mgen_commutator_integral. Qed.
 Print Assumptions C11_Mgen_commutator_integral.
 
-Theorem C11_step_deriv_commutator_integral : forall d w ev (Cb NT : Mat) thr_dE thr_x thr_y dt,
-  0 < thr_dE /\ 0 < thr_x /\ 0 < thr_y ->
+Theorem C11_step_deriv_commutator_integral : forall d w ev (Cb NT : Mat) thr_dE thr_s dt,
+  0 < thr_dE /\ 0 < thr_s ->
   (forall p q m n, (p < d)%nat -> (q < d)%nat -> (m < d)%nat -> (n < d)%nat ->
     (Rabs (di_b ev p q * dt) < thr_dE -> di_b ev p q = 0) /\
-    (Rabs (di_x w ev m n * dt) < thr_x -> di_x w ev m n = 0) /\
-    (Rabs ((di_x w ev m n + di_b ev p q) * dt) < thr_y -> di_x w ev m n + di_b ev p q = 0)) ->
+    (Rabs (di_b ev p q * dt) < thr_dE -> Rabs (di_x w ev m n * dt) < thr_s -> di_x w ev m n = 0)) ->
   forall (phase : Cx) (BTj : Mat),
   cRInt (fun t => cmul' phase (csumn' d (fun n => csumn' d (fun k =>
                     cmul' (cmul' ic (mget RO BTj n k)) (comm_integrand d w ev Cb NT k n t))))) 0 dt
         (step_deriv_entry RO d phase BTj
-           (mbuild d d (M_entry RO d (deriv_integral_entry RO (thr_dE, thr_x, thr_y) w ev dt) Cb NT))).
+           (mbuild d d (M_entry RO d (deriv_integral_entry RO (thr_dE, thr_s) w ev dt) Cb NT))).
 Proof. exact step_deriv_commutator_integral. Qed.
 
 (* hypotheses satisfiable: two-level segment with eigenvalues 0, 1 at frequency 3, dt = 1, extracted thresholds *)
 Example C11_mask_exact_sat :
   let thr := Rdya (fst di_thr_dE) (snd di_thr_dE) in
+  let thr_s := Rdya (fst di_thr_series) (snd di_thr_series) in
   forall p q m n, (p < 2)%nat -> (q < 2)%nat -> (m < 2)%nat -> (n < 2)%nat ->
     (Rabs (di_b [0; 1] p q * 1) < thr -> di_b [0; 1] p q = 0) /\
-    (Rabs (di_x 3 [0; 1] m n * 1) < thr -> di_x 3 [0; 1] m n = 0) /\
-    (Rabs ((di_x 3 [0; 1] m n + di_b [0; 1] p q) * 1) < thr -> di_x 3 [0; 1] m n + di_b [0; 1] p q = 0).
+    (Rabs (di_b [0; 1] p q * 1) < thr -> Rabs (di_x 3 [0; 1] m n * 1) < thr_s -> di_x 3 [0; 1] m n = 0).
 Proof.
   assert (P : 0 < Rdya (fst di_thr_dE) (snd di_thr_dE) < 1).
   { apply (Rdya_small 944473296573929 73); reflexivity. }
+  assert (P2 : 0 < Rdya (fst di_thr_series) (snd di_thr_series) < 1).
+  { apply (Rdya_small 5764607523034235 59); reflexivity. }
   cbv zeta. set (thr := Rdya (fst di_thr_dE) (snd di_thr_dE)) in *.
+  set (thr_s := Rdya (fst di_thr_series) (snd di_thr_series)) in *.
   intros p q m n Hp Hq Hm Hn.
   destruct p as [|[|p]]; [| |lia]; (destruct q as [|[|q]]; [| |lia]); (destruct m as [|[|m]]; [| |lia]);
     (destruct n as [|[|n]]; [| |lia]); unfold di_b, di_x, vg, vget; simpl;
-    repeat split; intros H; try ring; exfalso; apply Rabs_def2 in H; lra.
+    split; intros H; try ring; try (exfalso; apply Rabs_def2 in H; lra);
+    intros H'; exfalso; apply Rabs_def2 in H'; lra.
 Qed.
+
+(* --- the Taylor-series window of _derivative_integral (|x dt| < thr_s <= 1, the extracted thr_s is 0.01): the value
+       used differs from the exact integral int_0^dt t e^{ixt} dt by at most dt^2 (x dt)^6/5760 (real part) and
+       dt^2 |x dt|^5/840 (imaginary part): < 2e-13 relative to dt^2/2 --- *)
+Theorem C11_di_series_bound : forall thr_s x dt Ire Iim, 0 <= dt -> thr_s <= 1 -> Rabs (x * dt) < thr_s ->
+  is_RInt (dint_re x 0) 0 dt Ire -> is_RInt (dint_im x 0) 0 dt Iim ->
+  Rabs (fst (di_tmp1 RO thr_s x dt) - Ire) <= dt * dt * ((x * dt) ^ 6 / 5760) /\
+  Rabs (snd (di_tmp1 RO thr_s x dt) - Iim) <= dt * dt * (Rabs (x * dt) ^ 5 / 840).
+Proof. exact di_tmp1_series_bound. Qed.
+Print Assumptions C11_di_series_bound.
+(* the extracted series threshold satisfies the hypothesis *)
+Example C11_di_series_thr_le_1 : 0 < Rdya (fst di_thr_series) (snd di_thr_series) <= 1.
+Proof. destruct (Rdya_small 5764607523034235 59) as [A B]; try reflexivity. split; [exact A | left; exact B]. Qed.
